@@ -1580,6 +1580,10 @@ func (t *Topic) thisUserSub(sess *Session, pkt *ClientComMessage, asUid types.Ui
 			if modeWant == types.ModeUnset {
 				// User wants default access mode.
 				userData.modeWant = t.accessFor(asLvl)
+			} else if modeWant.IsOwner() {
+				// Ownership transfer can only be initiated by the owner.
+				sess.queueOut(ErrPermissionDeniedReply(pkt, now))
+				return nil, errors.New("non-owner cannot request ownership transfer")
 			} else {
 				userData.modeWant = modeWant
 			}
